@@ -22,6 +22,15 @@ func normalize(obj any) (any, error) {
 	case json.Number:
 		return normalizeNumber(obj2)
 
+	case int64:
+		// TOML (and large YAML) integers decode as int64; use the same
+		// representation as the other formats so that values compare equal.
+		if obj2 == int64(int(obj2)) {
+			return int(obj2), nil
+		}
+
+		return obj2, nil
+
 	default:
 		return obj2, nil
 	}
